@@ -529,7 +529,8 @@ pub fn run(seed: u64, count: usize, tier: &str, sink: &mut Sink) {
         one_case(sink, &root, &start, bystander.as_ref(), mode);
     }
     // directed: three adjacent whitespace-only text nodes built while consolidation was off,
-    // consolidation on again, stripping at the middle one (the boundary of C18_frame)
+    // consolidation on again, stripping at the middle one (regression case of /repo 1e1d5fd:
+    // the removal loop must not merge the neighbours)
     {
         let t = |s: &str| GTree::leaf(GValue::Text(s.to_string()));
         let root = GTree::new(GValue::Element(2), vec![t(" "), t("\n"), t("\t")]);
